@@ -666,3 +666,20 @@ def _h_writes_first(name):
 
 for _n in ('copyto', 'putmask', 'place', 'fill_diagonal'):
     HANDLERS['numpy.' + _n] = _h_writes_first(_n)
+
+
+def _h_fftn(name2):
+    """np.fft.fftn(x, axes=(-2, -1), ...) / axes=(0, 1) of a plane is np.fft.fft2(x, ...)"""
+    def h(ip, st, args, kw, node):
+        axes = kw.get('axes', args[2] if len(args) > 2 else None)
+        two = isinstance(axes, Tup) and len(axes) == 2 and \
+            [i.const_value() if isinstance(i, Poly) else None for i in axes.items] in ([-2, -1], [0, 1])
+        if two and (len(args) < 2 or args[1] == NONE):
+            kw2 = {k: v for k, v in kw.items() if k != 'axes'}
+            return h_generic(name2)(ip, st, args[:1], kw2, node)
+        return h_generic(name2.replace('2', 'n'))(ip, st, args, kw, node)
+    return h
+
+
+HANDLERS['numpy.fft.fftn'] = _h_fftn('fft.fft2')
+HANDLERS['numpy.fft.ifftn'] = _h_fftn('fft.ifft2')
